@@ -19,11 +19,15 @@ def s_case(draw):
     big = draw(st.integers(0, 9)) == 0
     n = draw(st.sampled_from([2048, 4096, 4095, 2047, 8191])) if big else draw(st.one_of(st.sampled_from(LENGTHS), st.integers(1, 300)))
     x = draw(s_signal(n=n, fams=["gauss", "unif", "smallint", "spike", "const", "lead0"]))
+    # units: amplitudes over 18 decades; "weakq": an O(1) real waveform with a quadrature component of 1e-12..1e-6
+    x["scale"] = draw(st.sampled_from([1.0, 1.0, 1e-3, 1e-9, 1e-12, 1e6]))
+    x["weakq"] = draw(st.sampled_from([0.0, 0.0, 1e-12, 1e-9, 1e-7]))
     return {"x": x, "gv": draw(s_gv(noncommensurate=True)), "gv2": draw(s_gv(noncommensurate=True)), "shift": draw(st.booleans()), "dom": draw(st.sampled_from(["w", "f", "t"]))}
 
 
 def tol(ref):
-    return 1e-9 * max(1.0, float(np.max(np.abs(ref))) if np.size(ref) else 1.0)
+    # FFT rounding error is relative to the size of the data: no absolute floor (weak signals must round-trip as well as strong ones)
+    return 1e-9 * (float(np.max(np.abs(ref))) if np.size(ref) else 0.0) + 1e-300
 
 
 def eq(a, b, tag, what):
@@ -36,6 +40,19 @@ def e_case(c):
     reset()
     sps, R, fs = apply_gv(c["gv"])
     x, m = build(c["x"])
+    sc, wq = c["x"].get("scale", 1.0), c["x"].get("weakq", 0.0)
+    if sc != 1.0 or wq:
+        rs_ = np.random.RandomState(c["x"]["sig"]["seed"])
+        s_ = m.s * sc if m.s.dtype.kind != "i" or sc >= 1 else m.s.astype(float) * sc
+        if wq:
+            s_ = s_.real.astype(float) + 1j * wq * abs(sc) * rs_.standard_normal(m.s.shape)
+        n_ = None if m.n is None else ((m.n * sc if m.n.dtype.kind != "i" or sc >= 1 else m.n.astype(float) * sc) * (1e-3 if wq else 1.0))
+        if n_ is not None:
+            rt = np.result_type(s_, n_)
+            s_, n_ = s_.astype(rt), n_.astype(rt)
+        from ..sigs import CLS, Model
+        x = CLS[m.cls](s_.copy(), None if n_ is None else n_.copy())
+        m = Model(m.cls, m.npol, s_, n_)
     N = m.N
     g = Guard()
     g.add_signal("x", x)
@@ -61,7 +78,7 @@ def e_case(c):
         Xa = getattr(Xw, nm)
         lhs = np.sum(np.abs(Xa) ** 2, axis=-1)
         rhs = N * np.sum(np.abs(arr) ** 2, axis=-1)
-        check(np.allclose(lhs, rhs, rtol=1e-9, atol=1e-9), "parseval", f"{nm}: {lhs} vs {rhs}")
+        check(np.allclose(lhs, rhs, rtol=1e-9, atol=1e-300), "parseval", f"{nm}: {lhs} vs {rhs}")
     # shift only reorders
     Xs = lib(x, "w", True)
     contract(Xs, m.cls, m.npol, N, "x('w',shift)")
@@ -102,7 +119,7 @@ def e_case(c):
     g.release()
     nt = (N >= 3 and N % 2 == 1) or (m.npol == 2 and m.n is not None) or fs != 16e9
     return {"nontrivial": bool(nt), "classes": [c["x"]["cls"] + str(m.npol), "odd" if N % 2 else "even", "N1" if N == 1 else "N2" if N == 2 else "N>2",
-                                                 "noise" if m.n is not None else "clean", c["gv"]["form"], "big" if N > 1000 else "small", c["x"]["sig"]["dt"]]}
+                                                 "noise" if m.n is not None else "clean", c["gv"]["form"], "big" if N > 1000 else "small", c["x"]["sig"]["dt"], f"scale{sc:g}", "weakq" if wq else "plain"]}
 
 
 PARTS = [Part("transforms", e_case, s_case(), quick=1500, thorough=30000, shards=16, quick_shards=2, rule=RULE[-120:])]
